@@ -778,8 +778,9 @@ class Phase(Angle):
                 return NotImplemented
 
             # The correction is built in the output; keep a copy of the dividend
-            # if the output is the dividend itself (``phase %= divisor``).
-            this = self.copy() if phase_out is self else self
+            # if the output is (a view of) the dividend (``phase %= divisor``).
+            overlap = phase_out is not None and np.may_share_memory(phase_out, self)
+            this = self.copy() if overlap else self
             fd = np.floor_divide(this.cycle, divisor, out=fd_out)
             corr = Phase.from_angles(divisor, factor=fd, out=phase_out)
             remainder = np.subtract(this, corr, out=corr)
